@@ -338,4 +338,130 @@ def partSettled (t : Tables) (p : DescrPart) : Prop :=
 /-- every part of the description modification report is already reflected by the tables -/
 def Settled (t : Tables) (r : Report) : Prop := ∀ p ∈ r.parts, partSettled t p
 
+/-! ### C01: what the reports of one provider transaction have to say about the change `p → p'`
+
+`p`, `p'` are the provider content (version group + the three tables, `source_mds` forgotten) before and after one
+committed transaction, `rs` the reports the provider sent for it, in emission order.  `reportsDescribe` is the
+(decidable) contract between the provider side (C04 proves that the provider model satisfies it; the harness
+evaluates it on every transaction of the real provider) and the consumer side (C01 `mirror`). -/
+
+def stateReportStates (rs : List Report) : List SState :=
+  (rs.filter (fun r => r.kind != .description && r.kind != .context)).flatMap (·.states)
+
+def contextReportStates (rs : List Report) : List CState :=
+  (rs.filter (fun r => r.kind == .context)).flatMap (·.cstates)
+
+def descrParts (rs : List Report) : List DescrPart :=
+  (rs.filter (fun r => r.kind == .description)).flatMap (·.parts)
+
+def deletedHandles (ps : List DescrPart) : List Handle := partHandles .delete ps
+
+/-- states carried by CREATE / UPDATE parts -/
+def partStates (ps : List DescrPart) : List SState := (ps.filter (fun p => p.mod != .delete)).flatMap (·.states)
+def partCStates (ps : List DescrPart) : List CState := (ps.filter (fun p => p.mod != .delete)).flatMap (·.cstates)
+
+/-- DELETE parts come children first: when part `i` deletes `h`, every child of `h` was deleted by an earlier part,
+    and nothing is created / updated below `h` -/
+def flatDeletes (p : Core) : List DescrPart → List DescrPart → Bool
+  | _, [] => true
+  | before, q :: rest =>
+    (q.mod != .delete ||
+      (p.tabs.descrs.all (fun d => d.parent != some q.descr.handle ||
+          before.any (fun b => b.mod == .delete && b.descr.handle == d.handle)) &&
+       (before ++ rest).all (fun b => b.mod == .delete || b.descr.parent != some q.descr.handle))) &&
+    flatDeletes p (before ++ [q]) rest
+
+structure DescribeClauses where
+  nonempty : Bool
+  vg : Bool
+  ids : Bool
+  wf : Bool
+  partsDistinct : Bool
+  created : Bool
+  updated : Bool
+  deleted : Bool
+  descrComplete : Bool
+  descrRemoved : Bool
+  flat : Bool
+  stateSound : Bool
+  stateNewer : Bool
+  stateComplete : Bool
+  stateRemoved : Bool
+  deletedStatesGone : Bool
+  cstateSound : Bool
+  cstateNewer : Bool
+  cstateComplete : Bool
+  cstateRemoved : Bool
+  cstateStable : Bool
+  ctxUpdateLists : Bool
+deriving Repr
+
+def describeClauses (p p' : Core) (rs : List Report) : DescribeClauses :=
+  let ps := descrParts rs
+  let del := deletedHandles ps
+  { nonempty := !rs.isEmpty
+    vg := rs.all (fun r => r.vg == p'.vg)
+    ids := decide (p.vg.ver < p'.vg.ver) && p.vg.seq == p'.vg.seq && p.vg.inst == p'.vg.inst
+    wf := keysNodup (·.handle) p.tabs.descrs && keysNodup (·.dh) p.tabs.states && keysNodup (·.h) p.tabs.cstates &&
+          keysNodup (·.handle) p'.tabs.descrs && keysNodup (·.dh) p'.tabs.states && keysNodup (·.h) p'.tabs.cstates
+    partsDistinct := keysNodup (·.descr.handle) ps
+    created := ps.all (fun q => q.mod != .create ||
+      ((lookupBy (·.handle) p.tabs.descrs q.descr.handle).isNone &&
+        lookupBy (·.handle) p'.tabs.descrs q.descr.handle == some q.descr))
+    updated := ps.all (fun q => q.mod != .update ||
+      (match lookupBy (·.handle) p.tabs.descrs q.descr.handle with
+       | some old => old.parent == q.descr.parent && old.mds == q.descr.mds &&
+                     lookupBy (·.handle) p'.tabs.descrs q.descr.handle == some q.descr
+       | none => false))
+    deleted := ps.all (fun q => q.mod != .delete ||
+      ((lookupBy (·.handle) p.tabs.descrs q.descr.handle).isSome &&
+        (lookupBy (·.handle) p'.tabs.descrs q.descr.handle).isNone))
+    descrComplete := p'.tabs.descrs.all (fun d => lookupBy (·.handle) p.tabs.descrs d.handle == some d ||
+      ps.any (fun q => q.mod != .delete && q.descr.handle == d.handle))
+    descrRemoved := p.tabs.descrs.all (fun d => (lookupBy (·.handle) p'.tabs.descrs d.handle).isSome || del.contains d.handle)
+    flat := flatDeletes p [] ps
+    stateSound := (stateReportStates rs ++ partStates ps).all (fun s => lookupBy (·.dh) p'.tabs.states s.dh == some s)
+    stateNewer := (stateReportStates rs ++ partStates ps).all (fun s =>
+      match lookupBy (·.dh) p.tabs.states s.dh with
+      | some old => decide (old.sv < s.sv)
+      | none => true)
+    stateComplete := p'.tabs.states.all (fun s => lookupBy (·.dh) p.tabs.states s.dh == some s ||
+      (stateReportStates rs).contains s)
+    stateRemoved := p.tabs.states.all (fun s => (lookupBy (·.dh) p'.tabs.states s.dh).isSome || del.contains s.dh)
+    deletedStatesGone := del.all (fun h => (lookupBy (·.dh) p'.tabs.states h).isNone && p'.tabs.cstates.all (fun c => c.dh != h))
+    cstateSound := (contextReportStates rs ++ partCStates ps).all (fun s => lookupBy (·.h) p'.tabs.cstates s.h == some s)
+    cstateNewer := (contextReportStates rs ++ partCStates ps).all (fun s =>
+      match lookupBy (·.h) p.tabs.cstates s.h with
+      | some old => decide (old.sv < s.sv)
+      | none => true)
+    cstateComplete := p'.tabs.cstates.all (fun s => lookupBy (·.h) p.tabs.cstates s.h == some s ||
+      (contextReportStates rs).contains s)
+    cstateRemoved := p.tabs.cstates.all (fun s => (lookupBy (·.h) p'.tabs.cstates s.h).isSome || del.contains s.dh)
+    -- a context state stays with its descriptor
+    cstateStable := p'.tabs.cstates.all (fun s =>
+      match lookupBy (·.h) p.tabs.cstates s.h with
+      | some old => old.dh == s.dh
+      | none => true)
+    -- an UPDATE part of a context descriptor lists every context state of that descriptor
+    ctxUpdateLists := ps.all (fun q => !(q.mod == .update && q.descr.kind == Kind.context) ||
+      (p.tabs.cstates ++ p'.tabs.cstates).all (fun c => c.dh != q.descr.handle ||
+        q.cstates.any (fun x => x.h == c.h && x.dh == q.descr.handle))) }
+
+def DescribeClauses.all (c : DescribeClauses) : Bool :=
+  c.nonempty && c.vg && c.ids && c.wf && c.partsDistinct && c.created && c.updated && c.deleted &&
+  c.descrComplete && c.descrRemoved && c.flat && c.stateSound && c.stateNewer && c.stateComplete && c.stateRemoved &&
+  c.deletedStatesGone && c.cstateSound && c.cstateNewer && c.cstateComplete && c.cstateRemoved && c.cstateStable && c.ctxUpdateLists
+
+/-- the reports `rs` describe the change `p → p'` exactly -/
+def reportsDescribe (p p' : Core) (rs : List Report) : Bool := (describeClauses p p' rs).all
+
+abbrev ReportsDescribe (p p' : Core) (rs : List Report) : Prop := reportsDescribe p p' rs = true
+
+/-- same content: equal version group, lookup-wise equal tables -/
+structure Mirror (c p : Core) : Prop where
+  vg : c.vg = p.vg
+  d : ∀ k, lookupBy (·.handle) c.tabs.descrs k = lookupBy (·.handle) p.tabs.descrs k
+  s : ∀ k, lookupBy (·.dh) c.tabs.states k = lookupBy (·.dh) p.tabs.states k
+  c : ∀ k, lookupBy (·.h) c.tabs.cstates k = lookupBy (·.h) p.tabs.cstates k
+
 end Sdc.Consumer
